@@ -460,6 +460,19 @@ pub fn drain_receiver(
 }
 
 impl WorkerCtx {
+    /// For queue operations through handles: every other such operation takes the Exchange handle from the
+    /// thread's next channel (the method must still go out on the Queue handle's channel); a note tells the
+    /// wire oracle where the handle's declare went.
+    fn other_channel_for_handle(&mut self, slot: usize, idx: usize, ch: &'static Channel) -> &'static Channel {
+        let o = (slot + 1) % self.chans.len();
+        if idx % 2 == 1 && o != slot && !self.chans[o].ptr.is_null() && !self.chans[o].closed {
+            self.hist.lock().unwrap().notes.push(format!("qvia-other t{} idx{} ch{}", self.thread, idx, self.chans[o].id));
+            self.chans[o].chan()
+        } else {
+            ch
+        }
+    }
+
     pub fn exec(&mut self, slot: usize, idx: usize, op: &Op, mark: &str) -> OpResult {
         if self.chans[slot].closed {
             // only draining a consumer queue makes sense without the channel
@@ -502,7 +515,7 @@ impl WorkerCtx {
                         Ok(q) => q,
                         Err(e) => return OpResult::Err(err_string(&e)),
                     };
-                    let ex = match ch.exchange_declare_nowait(ExchangeType::Direct, exchange.clone(), ExchangeDeclareOptions::default()) {
+                    let ex = match self.other_channel_for_handle(slot, idx, ch).exchange_declare_nowait(ExchangeType::Direct, exchange.clone(), ExchangeDeclareOptions::default()) {
                         Ok(x) => x,
                         Err(e) => return OpResult::Err(err_string(&e)),
                     };
@@ -520,7 +533,7 @@ impl WorkerCtx {
                         Ok(q) => q,
                         Err(e) => return OpResult::Err(err_string(&e)),
                     };
-                    let ex = match ch.exchange_declare_nowait(ExchangeType::Direct, exchange.clone(), ExchangeDeclareOptions::default()) {
+                    let ex = match self.other_channel_for_handle(slot, idx, ch).exchange_declare_nowait(ExchangeType::Direct, exchange.clone(), ExchangeDeclareOptions::default()) {
                         Ok(x) => x,
                         Err(e) => return OpResult::Err(err_string(&e)),
                     };
@@ -591,18 +604,29 @@ impl WorkerCtx {
             }
             Op::ExchangeBind { dest, src, rk, args, nowait, via } => {
                 let t = make_table(*args, mark);
+                // via 3 / 4: as 1 / 2, but the handle passed as the *argument* lives on the thread's next channel
+                // (the method must still go out on the channel of the handle the call is made on)
+                let other: &'static Channel = {
+                    let o = (slot + 1) % self.chans.len();
+                    if *via >= 3 && o != slot && !self.chans[o].ptr.is_null() && !self.chans[o].closed {
+                        self.hist.lock().unwrap().notes.push(format!("xvia-other t{} idx{} ch{}", self.thread, idx, self.chans[o].id));
+                        self.chans[o].chan()
+                    } else {
+                        ch
+                    }
+                };
                 match via {
                     0 => unit(if *nowait { ch.exchange_bind_nowait(dest.clone(), src.clone(), rk.clone(), t) } else { ch.exchange_bind(dest.clone(), src.clone(), rk.clone(), t) }),
                     _ => {
-                        let d = match ch.exchange_declare_nowait(ExchangeType::Direct, dest.clone(), ExchangeDeclareOptions::default()) {
+                        let d = match (if *via == 4 { other } else { ch }).exchange_declare_nowait(ExchangeType::Direct, dest.clone(), ExchangeDeclareOptions::default()) {
                             Ok(x) => x,
                             Err(e) => return OpResult::Err(err_string(&e)),
                         };
-                        let s = match ch.exchange_declare_nowait(ExchangeType::Direct, src.clone(), ExchangeDeclareOptions::default()) {
+                        let s = match (if *via == 3 { other } else { ch }).exchange_declare_nowait(ExchangeType::Direct, src.clone(), ExchangeDeclareOptions::default()) {
                             Ok(x) => x,
                             Err(e) => return OpResult::Err(err_string(&e)),
                         };
-                        if *via == 1 {
+                        if *via == 1 || *via == 3 {
                             unit(if *nowait { d.bind_to_source_nowait(&s, rk.clone(), t) } else { d.bind_to_source(&s, rk.clone(), t) })
                         } else {
                             unit(if *nowait { s.bind_to_destination_nowait(&d, rk.clone(), t) } else { s.bind_to_destination(&d, rk.clone(), t) })
@@ -612,18 +636,29 @@ impl WorkerCtx {
             }
             Op::ExchangeUnbind { dest, src, rk, args, nowait, via } => {
                 let t = make_table(*args, mark);
+                // via 3 / 4: as 1 / 2, but the handle passed as the *argument* lives on the thread's next channel
+                // (the method must still go out on the channel of the handle the call is made on)
+                let other: &'static Channel = {
+                    let o = (slot + 1) % self.chans.len();
+                    if *via >= 3 && o != slot && !self.chans[o].ptr.is_null() && !self.chans[o].closed {
+                        self.hist.lock().unwrap().notes.push(format!("xvia-other t{} idx{} ch{}", self.thread, idx, self.chans[o].id));
+                        self.chans[o].chan()
+                    } else {
+                        ch
+                    }
+                };
                 match via {
                     0 => unit(if *nowait { ch.exchange_unbind_nowait(dest.clone(), src.clone(), rk.clone(), t) } else { ch.exchange_unbind(dest.clone(), src.clone(), rk.clone(), t) }),
                     _ => {
-                        let d = match ch.exchange_declare_nowait(ExchangeType::Direct, dest.clone(), ExchangeDeclareOptions::default()) {
+                        let d = match (if *via == 4 { other } else { ch }).exchange_declare_nowait(ExchangeType::Direct, dest.clone(), ExchangeDeclareOptions::default()) {
                             Ok(x) => x,
                             Err(e) => return OpResult::Err(err_string(&e)),
                         };
-                        let s = match ch.exchange_declare_nowait(ExchangeType::Direct, src.clone(), ExchangeDeclareOptions::default()) {
+                        let s = match (if *via == 3 { other } else { ch }).exchange_declare_nowait(ExchangeType::Direct, src.clone(), ExchangeDeclareOptions::default()) {
                             Ok(x) => x,
                             Err(e) => return OpResult::Err(err_string(&e)),
                         };
-                        if *via == 1 {
+                        if *via == 1 || *via == 3 {
                             unit(if *nowait { d.unbind_from_source_nowait(&s, rk.clone(), t) } else { d.unbind_from_source(&s, rk.clone(), t) })
                         } else {
                             unit(if *nowait { s.unbind_from_destination_nowait(&d, rk.clone(), t) } else { s.unbind_from_destination(&d, rk.clone(), t) })
